@@ -304,7 +304,22 @@ pub fn profile_pass() -> Option<String> {
     std::env::var("VERIF_PROFILE_PASS").ok().filter(|s| !s.is_empty())
 }
 
+/// Which build of the harness this is, as written into replay files: run.sh picks the matching
+/// binary for a replay.
+pub fn build_variant() -> &'static str {
+    if cfg!(feature = "weakhash") {
+        "weakhash"
+    } else if cfg!(debug_assertions) {
+        "debug"
+    } else {
+        "release"
+    }
+}
+
 pub fn build_profile() -> &'static str {
+    if cfg!(feature = "weakhash") {
+        return "release, library copy with a seven-value DefaultHasher";
+    }
     if cfg!(debug_assertions) {
         "dev (debug assertions and overflow checks on)"
     } else {
@@ -325,18 +340,22 @@ pub fn write_evidence(e: EvidenceInput) -> Result<(), String> {
     let suffix = match profile_pass() {
         Some(p) => format!(".{p}"),
         None => {
-            // fold in the summary of a preceding pass under another profile, if there is one
-            let side = verif_root().join("evidence").join(format!("{}.debug.json", e.prop));
-            if let Ok(t) = std::fs::read_to_string(&side) {
-                if let Ok(v) = serde_json::from_str::<Value>(&t) {
-                    if v["seed"].as_u64() == Some(e.seed) {
-                        coverage.insert(
-                            "debug_profile_pass".into(),
-                            json!({"evaluations": v["coverage"]["evaluations"], "distinct_nontrivial": v["coverage"]["distinct_nontrivial"], "violations": v["violations"], "wall_s": v["wall_s"]}),
-                        );
+            // fold in the summaries of preceding passes under other builds, if there are any
+            for (file, key) in [("debug", "debug_profile_pass"), ("weakhash", "weak_hash_pass")] {
+                let side = verif_root().join("evidence").join(format!("{}.{file}.json", e.prop));
+                if let Ok(t) = std::fs::read_to_string(&side) {
+                    if let Ok(v) = serde_json::from_str::<Value>(&t) {
+                        if v["seed"].as_u64() == Some(e.seed) {
+                            coverage.insert(
+                                key.into(),
+                                json!({"evaluations": v["coverage"]["evaluations"], "distinct_nontrivial": v["coverage"]["distinct_nontrivial"], "violations": v["violations"], "wall_s": v["wall_s"], "build": v["coverage"]["build_profile"]}),
+                            );
+                        }
                     }
+                    let _ = std::fs::remove_file(&side);
+                } else if file == "weakhash" && e.prop != "C16" {
+                    coverage.insert(key.into(), json!("not run: the library's source does not mention DefaultHasher (the pass rebuilds the library with a seven-value DefaultHasher so that digest collisions become reachable)"));
                 }
-                let _ = std::fs::remove_file(&side);
             }
             String::new()
         }
